@@ -23,6 +23,9 @@ func VH_C16_pco_roundtrip() {
 		u.ProtocolOrContainerID = vrt.U16(fmt.Sprintf("id%d", i))
 		u.LengthOfContents = uint8(l)
 		u.Contents = vrt.Bytes(fmt.Sprintf("c%d", i), l)
+		if l == 0 && vrt.Bool(fmt.Sprintf("nil%d", i)) {
+			u.Contents = nil // a container without contents may carry a nil slice as well as an empty one
+		}
 		pco.ProtocolOrContainerList = append(pco.ProtocolOrContainerList, u)
 		want = append(want, byte(u.ProtocolOrContainerID>>8), byte(u.ProtocolOrContainerID), byte(l))
 		want = append(want, u.Contents...)
